@@ -81,7 +81,10 @@ type Tree struct {
 
 	Trace   []Call
 	FaultAt int // 1-based index of the callback that fails; 0 = none
-	NilAt   int // 1-based index of the callback which, if it is a GetValue, returns a nil datum without an error
+	PanicAt int // 1-based index of the callback that panics with PanicWith instead of returning
+	// PanicWith is the panic value (any type: a data tree is foreign code).
+	PanicWith any
+	NilAt     int // 1-based index of the callback which, if it is a GetValue, returns a nil datum without an error
 	calls   int
 	// Record can be switched off for concurrent use (C06).
 	NoRecord bool
@@ -110,6 +113,9 @@ func (t *Tree) rec(c Call) {
 }
 func (t *Tree) fault() error {
 	t.calls++
+	if t.PanicAt != 0 && t.calls == t.PanicAt {
+		panic(t.PanicWith)
+	}
 	if t.FaultAt != 0 && t.calls == t.FaultAt {
 		return &FaultError{K: t.calls}
 	}
